@@ -260,6 +260,10 @@ func runLane[C any](s *suite, l Lane[C]) {
 					r = r[:48]
 				}
 				s.rec.Class("inconclusive:"+r, 1)
+				if inconcl <= 3 {
+					js, _ := json.Marshal(c)
+					s.rec.Extra(fmt.Sprintf("inconclusive_example_%s_%d", l.Name, inconcl), map[string]interface{}{"why": o.Inconcl, "case": json.RawMessage(js)})
+				}
 				lastFail = nil
 				return
 			}
